@@ -45,6 +45,10 @@ def gen_case(rng, idx, big):
     lines += ([] if big else ['read 0']) + ['localstate 0', 'fetchstate 1 0', 'fetchstate 2 0']
     if rng.chance(1, 2):
         lines.append('badstate 1 %s' % rng.choice(['-', '00000000', '0000000000000000', 'ff' * 7, '01020304050607080910111213141516', '00' * 64, '7f' * 33]))
+    if rng.chance(1, 2):
+        # the ENVELOPE around the state: the byte-exact honest reply with the declared length / the position of the nested bytes
+        # changed and the CRC recomputed (a peer of another version, a buggy or a hostile one: the CRC only guards the wire)
+        lines.append('badenvelope 1 %s %d' % (rng.choice(['ok', 'len', 'len', 'ptr']), rng.choice([0, 1, 5, 40])))
     lines.append('end')
     return lines
 
@@ -134,6 +138,10 @@ def oracle(case, impl):
         elif line.startswith('badstate'):
             if out != 'rejected':
                 bad.append('%s: an undecodable state was not reported as an error (%s)' % (line, out))
+        elif line.startswith('badenvelope'):
+            want = 'accepted %s' % line.split()[3] if line.split()[2] == 'ok' else 'rejected'
+            if out != want:
+                bad.append('%s: a reply whose envelope cannot be decoded was not reported as an error (%s)' % (line, out))
     return bad
 
 
